@@ -17,8 +17,9 @@ Theorem topo_eval_is_sequential_evaluation :
     rget rc t = apply (tfun t) (ref_args g (rget rc) t) /\ incl (pred g t) pre /\ ~ In t pre.
 Proof. exact topo_eval_is_sequential_evaluation_stmt. Qed.
 
-(* dask_dict_sound.  For every workflow graph with a single output task, fresh keys, and static inputs
-   that contain neither a string equal to a key nor a tuple with a callable head; for every pure
+(* dask_dict_sound (no static-input guard since /repo d3e6e19).  For every workflow graph with a single
+   output task and fresh keys, ANY static inputs (strings equal to keys, callable-headed tuples, nested in
+   tuples / lists / dicts: as_dask_dict quotes exactly those with dask.core.literal); for every pure
    meaning of the callables; for EVERY schedule the scheduler can follow on as_dask_dict(g) and every
    order in which the sequential reference evaluation succeeds: every task the two both ran has
    the reference value, and its function was called exactly once, with exactly the reference
@@ -27,7 +28,7 @@ Theorem dask_dict_sound :
   forall (apply : positive -> list sval -> sval) (g : tgraph) (ids : task -> positive) (d : dsk) (o : task)
          (order : list task) (rc : cache task sval) (sched : list positive) (dc : cache positive dval) (t : task),
     output_tasks g = [o] -> as_dask_dict g ids = Some d ->
-    g_keys_fresh g ids = true -> g_static_nokey g ids = true -> g_static_nocall g = true ->
+    g_keys_fresh g ids = true ->
     topo_eval apply g order = Some rc -> incl order (nodes g) -> In t order ->
     dask_run apply d sched = Some dc -> In (key_of ids o t) sched ->
     dget dc (key_of ids o t) = (rget rc t, [(tfun t, ref_args g (rget rc) t)]).
@@ -38,7 +39,7 @@ Theorem dask_results_sound :
   forall (apply : positive -> list sval -> sval) (g : tgraph) (ids : task -> positive) (d : dsk) (o : task)
          (order : list task) (rc : cache task sval) (sched : list positive) (dc : cache positive dval),
     output_tasks g = [o] -> as_dask_dict g ids = Some d ->
-    g_keys_fresh g ids = true -> g_static_nokey g ids = true -> g_static_nocall g = true ->
+    g_keys_fresh g ids = true ->
     topo_eval apply g order = Some rc -> incl order (nodes g) -> In o order ->
     dask_run apply d sched = Some dc -> In results sched ->
     fst (dget dc results) = rget rc o.
@@ -50,7 +51,7 @@ Proof. exact dask_results_sound_stmt. Qed.
 Theorem dask_get_sound :
   forall (apply : positive -> list sval -> sval) (g : tgraph) (ids : task -> positive) (d : dsk) (o : task),
     output_tasks g = [o] -> as_dask_dict g ids = Some d ->
-    g_keys_fresh g ids = true -> g_static_nokey g ids = true -> g_static_nocall g = true ->
+    g_keys_fresh g ids = true ->
     length (topo_order g) = length (nodes g) ->
     exists v, ref_get apply g = ROk v /\ dask_get apply d results = ROk v.
 Proof. exact dask_get_sound_stmt. Qed.
@@ -61,19 +62,19 @@ Theorem execute_sound :
   forall (apply : positive -> list sval -> sval) (g : tgraph) (ctx : sval) (next : positive) (ids : task -> positive) (o : task),
     let p := exec_prepare g ctx next in
     output_tasks p = [o] ->
-    g_keys_fresh p ids = true -> g_static_nokey p ids = true -> g_static_nocall p = true ->
+    g_keys_fresh p ids = true ->
     length (topo_order p) = length (nodes p) ->
     exists v, ref_get apply p = ROk v /\ execute apply g ctx next ids = ROk v.
 Proof. exact execute_sound_stmt. Qed.
 
-(* exactly_once.  Under the same guards, any run of the scheduler that covers the dict executes
+(* exactly_once.  Under the same hypotheses (one output task, fresh keys), any run of the scheduler that covers the dict executes
    every key once (no key twice), and the multiset of ALL calls made is exactly one call per task
    with its reference arguments. *)
 Theorem exactly_once :
   forall (apply : positive -> list sval -> sval) (g : tgraph) (ids : task -> positive) (d : dsk) (o : task)
          (order : list task) (rc : cache task sval) (sched : list positive) (dc : cache positive dval),
     output_tasks g = [o] -> as_dask_dict g ids = Some d ->
-    g_keys_fresh g ids = true -> g_static_nokey g ids = true -> g_static_nocall g = true ->
+    g_keys_fresh g ids = true ->
     topo_eval apply g order = Some rc -> (forall t, In t order <-> In t (nodes g)) ->
     dask_run apply d sched = Some dc -> (forall k, In k sched <-> In k (dkeys d)) ->
     NoDup sched /\
@@ -223,18 +224,18 @@ Theorem declared_eval_is_sequential_evaluation :
 Proof. exact declared_eval_is_sequential_evaluation_stmt. Qed.
 
 (* THE PROPERTY, end to end.  For every workflow a builder can make, every context, every pure meaning
-   of the callables: if the workflow has one output task, the keys are fresh, no static input (nor the
-   context) contains a key string or a callable-headed tuple, then execute_workflow (copies, insert_context, Workflow,
-   as_dask_dict, threaded get with the deterministic schedule - and by schedule_independent with any
-   schedule) returns the value the DECLARED evaluation gives the output task, for any complete
-   order in which the declared evaluation succeeds. *)
+   of the callables, every static input: if the workflow has one output task and the uuid keys are fresh,
+   then execute_workflow (copies, insert_context, Workflow, as_dask_dict with its quoting, threaded get
+   with the deterministic schedule - and by schedule_independent with any schedule) returns the value
+   the DECLARED evaluation gives the output task, for any complete order in which the declared
+   evaluation succeeds.  (Former guards: g_ctx_order - repaired in 4400919; g_static_nokey and
+   g_static_nocall - repaired in d3e6e19.) *)
 Theorem execute_is_declared_evaluation :
   forall (apply : positive -> list sval -> sval) (g : tgraph) (ctx : sval) (next : positive) (ids : task -> positive)
          (o : task) (order : list task) (rc : cache task sval),
     built g -> uids_below next g = true ->
     output_tasks (workflow_of g) = [o] ->
     g_keys_fresh (exec_prepare g ctx next) ids = true ->
-    g_static_nokey (exec_prepare g ctx next) ids = true -> g_static_nocall (exec_prepare g ctx next) = true ->
     declared_eval apply ctx (workflow_of g) order = Some rc -> (forall t, In t order <-> In t (nodes g)) ->
     execute apply g ctx next ids = ROk (rget rc o).
 Proof. exact execute_is_declared_evaluation_stmt. Qed.
